@@ -327,6 +327,13 @@ def run_impl(case, run):
                             srows, shl, ssz = table_cells(sl) if sl.columns[0].size else ([], [], [0])
                             entry['slice'] = {'a': a, 'b': b, 'rows': srows, 'hl': shl, 'hlsizes': ssz,
                                               'text_rows': docutils_cells(str(RstTable(sl)))[1] if sl.columns[0].size else []}
+                            # a single row picked by an integer (negative ones included)
+                            nrows = tmpl.columns[0].size
+                            idx = case['slice'][1] % (2 * nrows) - nrows if nrows else 0
+                            one = tmpl[idx]
+                            orows, ohl, osz = table_cells(one)
+                            entry['index'] = {'i': idx, 'rows': orows, 'hl': ohl, 'hlsizes': osz,
+                                              'text_rows': docutils_cells(str(RstTable(one)))[1]}
                             j = tmpl.copy()
                             j.join(tmpl)
                             jrows, jhl, jsz = table_cells(j)
@@ -418,6 +425,8 @@ def compare(case, impl, model):
             hlc = [list(c) for c in zip(*entry['slice']['hl'])] if entry['slice']['hl'] else [[] for _ in entry['headers']]
             if cols != item['slice']['columns'] or hlc != item['slice']['hl']:
                 return f"slice [{entry['slice']['a']}:{entry['slice']['b']}]: impl cols={cols} hl={hlc} model={item['slice']}"[:600]
+            if 'join' not in entry:
+                continue
             jcols = [list(c) for c in zip(*entry['join']['rows'])]
             jhl = [list(c) for c in zip(*entry['join']['hl'])] if entry['join']['hl'] else []
             if jcols != item['join']['columns'] or jhl != item['join']['hl']:
@@ -495,7 +504,18 @@ def oracle(case, impl, run):
                 got = [[[c[0].strip(), c[1]] for c in r] for r in (entry['slice']['text_rows'] or [])]
                 if got != exp and all(c.strip() for r in entry['rows'] for c in r):
                     fails.append(('slice_aligned', f'[{a}:{b}]: the written slice reads back as {got}, expected {exp}'[:400]))
-            if entry['join']['rows'] != entry['rows'] * 2 or entry['join']['hl'] != entry['hl'] * 2:
+            if 'index' in entry:
+                i = entry['index']['i']
+                want_rows, want_hl = [entry['rows'][i]], [entry['hl'][i]]
+                if entry['index']['rows'] != want_rows or entry['index']['hl'] != want_hl:
+                    fails.append(('slice_aligned', f'table[{i}] at verbosity {entry["verb"]}: rows {entry["index"]["rows"]} highlights '
+                                  f'{entry["index"]["hl"]}, expected {want_rows} {want_hl}'[:400]))
+                else:
+                    exp = [[[c.strip(), h] for c, h in zip(want_rows[0], want_hl[0])]]
+                    got = [[[c[0].strip(), c[1]] for c in r] for r in (entry['index']['text_rows'] or [])]
+                    if got != exp and all(c.strip() for c in want_rows[0]):
+                        fails.append(('slice_aligned', f'table[{i}]: the written row reads back as {got}, expected {exp}'[:400]))
+            if 'join' in entry and (entry['join']['rows'] != entry['rows'] * 2 or entry['join']['hl'] != entry['hl'] * 2):
                 fails.append(('join_aligned', f'joining the table at verbosity {entry["verb"]} with itself: highlights {entry["join"]["hl"]}'[:300]))
         # the rows of a detailed table are the bins they claim to be
         if entry['kind'] in ('equal', 'approx', 'student') and 'values' in impl:
